@@ -26,6 +26,7 @@
  */
 
 #include "StringDictionary.h"
+#include "StringDictionaryHASHRPDACBlocks.h"
 
 StringDictionary *StringDictionary::load(std::istream &fp, uint opt) {
   // The type tag is peeked and the stream goes back to where the image starts
@@ -43,6 +44,8 @@ StringDictionary *StringDictionary::load(std::istream &fp, uint opt) {
     return StringDictionaryHASHRPF::load(fp, opt);
   case HASHRPDAC:
     return StringDictionaryHASHRPDAC::load(fp);
+  case HASHRPDACBlocks:
+    return StringDictionaryHASHRPDACBlocks::load(fp);
 
   case PFC:
     return StringDictionaryPFC::load(fp);
